@@ -64,6 +64,9 @@ def main(pid, argv):
         # client level: Send and the receive function it returns are given different contexts
         for t, kind, which in itertools.product(["unix", "tcp", "pipe"], ["cancel", "deadline"], ["sendctx", "recvctx"]):
             scen += ["%s clientrecv %s %s" % (t, kind, which)] * reps
+        # service side: the serving call's own context ends while a connection is idle / stalled in the middle of a frame
+        for kind, state in itertools.product(["cancel", "deadline"], ["idle", "midframe"]):
+            scen += ["unix svcctx %s %s" % (kind, state)] * reps
         # one connection used in both directions at once: what happens to one direction must not reach the other
         for t, which in itertools.product(["unix", "tcp"], ["rdcancel", "stalehook", "rwshare"]):
             scen += ["%s duplex cancel %s" % (t, which)] * reps
@@ -86,7 +89,7 @@ def main(pid, argv):
     uniq = list(dict.fromkeys(scen))
     # every transport is expected to honour deadlines
     # for the model a frame head that sits in the connection's own buffer is the same situation as one still in the kernel: no delimiter, the helper blocks
-    inst_of = {"buffered": "partial", "sendctx": "after", "recvctx": "blocked", "rdcancel": "after", "stalehook": "after", "rwshare": "after"}
+    inst_of = {"idle": "blocked", "midframe": "partial", "buffered": "partial", "sendctx": "after", "recvctx": "blocked", "rdcancel": "after", "stalehook": "after", "rwshare": "after"}
     model = V.run_model("ctx-run", ["1 %s %s" % ("cancel" if s.split()[3] in ("sendctx", "rdcancel", "stalehook", "rwshare") else s.split()[2], inst_of.get(s.split()[3], s.split()[3])) for s in uniq])
     nf = 0
     for sc, ml in zip(uniq, model):
@@ -96,7 +99,7 @@ def main(pid, argv):
             t, op, kind, inst = sc.split()
             ck.count("transport:" + t)
             ck.count("instant:" + inst)
-            if inst in ("blocked", "partial", "buffered", "recvctx"):
+            if inst in ("blocked", "partial", "buffered", "recvctx", "idle", "midframe"):
                 ck.distinct.add((sc, rep))
             f = dict(kv.split("=", 1) for kv in il.split() if "=" in kv)
             bad = None
